@@ -159,7 +159,7 @@ func (i *dbIter) setErr(err error) {
 
 func (i *dbIter) iterErr() {
 	if err := i.iter.Error(); err != nil {
-		i.setErr(err)
+		i.setErr(closedIfReleased(err))
 	}
 }
 
